@@ -971,6 +971,18 @@ func txgReplayRaw(e *txgEnv, raw []byte, ts uint64) (err error, p any, site stri
 	return
 }
 
+// txgValidateRaw validates an encoded transaction with the given fork flag
+// (fork=true is how the kernel validates a transaction carried by a finalized
+// snapshot: an input reserved for another transaction is then admissible).
+func txgValidateRaw(e *txgEnv, raw []byte, ts uint64, fork bool) (dec *common.VersionedTransaction, err error, p any) {
+	dec, derr := common.UnmarshalVersionedTransaction(raw)
+	if derr != nil {
+		return nil, derr, nil
+	}
+	p, _ = txgCatchSite(func() { err = dec.Validate(e.store(), ts, fork) })
+	return
+}
+
 // txgErrClass normalises an error message to its class: words only, tokens
 // with digits or long hex strings dropped, first six words.
 func txgErrClass(err error) string {
